@@ -1428,11 +1428,15 @@ impl Bitboard {
         };
         let is_pawn_move = from_piece == Piece::PAWN;
 
-        let disambiguation_symbol = match (any_share_source_file, any_share_source_rank, is_pawn_move) {
-            (true, _, true) | (false, true, false) => { from_square.file.fen.to_string() }
-            (true, true, false) => { format!("{}{}", from_square.file.fen, from_square.rank.fen) }
-            (true, false, false) => { from_square.rank.fen.to_string() }
-            (_, _, _) => { String::new() }
+        let any_other_source =
+            legal_moves_with_same_to_square_and_same_piece.iter()
+                .any(|mv| mv.get_source_square() != result.get_source_square());
+
+        let disambiguation_symbol = match (any_other_source, any_share_source_file, any_share_source_rank, is_pawn_move) {
+            (_, true, _, true) | (true, false, _, false) => { from_square.file.fen.to_string() }
+            (true, true, true, false) => { format!("{}{}", from_square.file.fen, from_square.rank.fen) }
+            (true, true, false, false) => { from_square.rank.fen.to_string() }
+            (_, _, _, _) => { String::new() }
         };
         let capture = if to_piece.is_some() { "x" } else { "" };
         let target_square = to_square.fen;
